@@ -1,1 +1,1001 @@
-//! stub
+//! Independent HTTP/2 wire codec for the simulated peers (RFC 9113 framing, RFC 7541 HPACK).
+//!
+//! Nothing here calls into sozu. Frames are decoded from / encoded to plain byte vectors; the
+//! incremental [`FrameReader`] accepts input split at any byte. The HPACK *encoder* is written for
+//! the harness (literal representations, optional static-table name indices, optional Huffman,
+//! optional dynamic-table references, table-size updates); HPACK *decoding* of what sozu sends
+//! goes through `loona_hpack::Decoder` configured with the table size this peer advertised.
+//!
+//! Abuse tests build [`RawFrame`]s directly: type, flags, stream id, declared length and payload
+//! are all free (the declared length need not match the payload).
+#![allow(dead_code)]
+
+use std::collections::VecDeque;
+
+use serde::{Deserialize, Serialize};
+
+pub const PREFACE: &[u8] = b"PRI * HTTP/2.0\r\n\r\nSM\r\n\r\n";
+pub const MAX_WINDOW: i64 = 0x7fff_ffff;
+pub const DEFAULT_WINDOW: u32 = 65_535;
+pub const DEFAULT_MAX_FRAME: u32 = 16_384;
+pub const DEFAULT_TABLE_SIZE: u32 = 4_096;
+
+/// Frame types (RFC 9113 §6).
+pub mod ftype {
+    pub const DATA: u8 = 0;
+    pub const HEADERS: u8 = 1;
+    pub const PRIORITY: u8 = 2;
+    pub const RST_STREAM: u8 = 3;
+    pub const SETTINGS: u8 = 4;
+    pub const PUSH_PROMISE: u8 = 5;
+    pub const PING: u8 = 6;
+    pub const GOAWAY: u8 = 7;
+    pub const WINDOW_UPDATE: u8 = 8;
+    pub const CONTINUATION: u8 = 9;
+}
+pub fn type_name(t: u8) -> &'static str {
+    match t {
+        0 => "DATA", 1 => "HEADERS", 2 => "PRIORITY", 3 => "RST_STREAM", 4 => "SETTINGS", 5 => "PUSH_PROMISE",
+        6 => "PING", 7 => "GOAWAY", 8 => "WINDOW_UPDATE", 9 => "CONTINUATION", _ => "UNKNOWN",
+    }
+}
+pub mod flag {
+    pub const END_STREAM: u8 = 0x1;
+    pub const ACK: u8 = 0x1;
+    pub const END_HEADERS: u8 = 0x4;
+    pub const PADDED: u8 = 0x8;
+    pub const PRIORITY: u8 = 0x20;
+}
+/// Error codes (RFC 9113 §7).
+pub mod ecode {
+    pub const NO_ERROR: u32 = 0;
+    pub const PROTOCOL_ERROR: u32 = 1;
+    pub const INTERNAL_ERROR: u32 = 2;
+    pub const FLOW_CONTROL_ERROR: u32 = 3;
+    pub const SETTINGS_TIMEOUT: u32 = 4;
+    pub const STREAM_CLOSED: u32 = 5;
+    pub const FRAME_SIZE_ERROR: u32 = 6;
+    pub const REFUSED_STREAM: u32 = 7;
+    pub const CANCEL: u32 = 8;
+    pub const COMPRESSION_ERROR: u32 = 9;
+    pub const CONNECT_ERROR: u32 = 10;
+    pub const ENHANCE_YOUR_CALM: u32 = 11;
+    pub const INADEQUATE_SECURITY: u32 = 12;
+    pub const HTTP_1_1_REQUIRED: u32 = 13;
+}
+pub fn ecode_name(c: u32) -> &'static str {
+    match c {
+        0 => "NO_ERROR", 1 => "PROTOCOL_ERROR", 2 => "INTERNAL_ERROR", 3 => "FLOW_CONTROL_ERROR", 4 => "SETTINGS_TIMEOUT",
+        5 => "STREAM_CLOSED", 6 => "FRAME_SIZE_ERROR", 7 => "REFUSED_STREAM", 8 => "CANCEL", 9 => "COMPRESSION_ERROR",
+        10 => "CONNECT_ERROR", 11 => "ENHANCE_YOUR_CALM", 12 => "INADEQUATE_SECURITY", 13 => "HTTP_1_1_REQUIRED", _ => "UNKNOWN_ERROR",
+    }
+}
+/// SETTINGS identifiers (RFC 9113 §6.5.2, RFC 8441, RFC 9218).
+pub mod sid {
+    pub const HEADER_TABLE_SIZE: u16 = 1;
+    pub const ENABLE_PUSH: u16 = 2;
+    pub const MAX_CONCURRENT_STREAMS: u16 = 3;
+    pub const INITIAL_WINDOW_SIZE: u16 = 4;
+    pub const MAX_FRAME_SIZE: u16 = 5;
+    pub const MAX_HEADER_LIST_SIZE: u16 = 6;
+    pub const ENABLE_CONNECT_PROTOCOL: u16 = 8;
+    pub const NO_RFC7540_PRIORITIES: u16 = 9;
+}
+
+// ------------------------------------------------------------------------------- frame header
+
+#[derive(Clone, Copy, Debug, PartialEq, Eq, Serialize, Deserialize)]
+pub struct FrameHeader {
+    /// declared payload length (24 bits on the wire)
+    pub len: u32,
+    pub ty: u8,
+    pub flags: u8,
+    /// reserved bit preceding the stream identifier
+    pub r: bool,
+    /// 31-bit stream identifier
+    pub stream: u32,
+}
+impl FrameHeader {
+    pub fn encode(&self) -> [u8; 9] {
+        let l = self.len & 0x00ff_ffff;
+        let s = (self.stream & 0x7fff_ffff) | if self.r { 0x8000_0000 } else { 0 };
+        [(l >> 16) as u8, (l >> 8) as u8, l as u8, self.ty, self.flags, (s >> 24) as u8, (s >> 16) as u8, (s >> 8) as u8, s as u8]
+    }
+    pub fn decode(b: &[u8]) -> FrameHeader {
+        assert!(b.len() >= 9);
+        let s = u32::from_be_bytes([b[5], b[6], b[7], b[8]]);
+        FrameHeader {
+            len: ((b[0] as u32) << 16) | ((b[1] as u32) << 8) | b[2] as u32,
+            ty: b[3],
+            flags: b[4],
+            r: s & 0x8000_0000 != 0,
+            stream: s & 0x7fff_ffff,
+        }
+    }
+}
+
+/// A frame as it travels: header plus payload bytes. When built by hand (abuse tests) the
+/// payload length may differ from `head.len`; [`RawFrame::encode`] writes both as given.
+#[derive(Clone, Debug, PartialEq, Eq, Serialize, Deserialize)]
+pub struct RawFrame {
+    pub head: FrameHeader,
+    pub payload: Vec<u8>,
+    /// offset of the first header byte in the inbound byte stream (reader output only)
+    pub at: u64,
+}
+impl RawFrame {
+    pub fn new(ty: u8, flags: u8, stream: u32, payload: Vec<u8>) -> RawFrame {
+        RawFrame { head: FrameHeader { len: payload.len() as u32, ty, flags, r: false, stream }, payload, at: 0 }
+    }
+    /// arbitrary declared length
+    pub fn with_declared_len(mut self, len: u32) -> RawFrame {
+        self.head.len = len;
+        self
+    }
+    pub fn encode(&self) -> Vec<u8> {
+        let mut v = Vec::with_capacity(9 + self.payload.len());
+        v.extend_from_slice(&self.head.encode());
+        v.extend_from_slice(&self.payload);
+        v
+    }
+    pub fn has(&self, f: u8) -> bool {
+        self.head.flags & f != 0
+    }
+}
+
+// ------------------------------------------------------------------------------- typed frames
+
+#[derive(Clone, Copy, Debug, PartialEq, Eq, Serialize, Deserialize)]
+pub struct Priority {
+    pub exclusive: bool,
+    pub dep: u32,
+    /// wire value (weight - 1)
+    pub weight: u8,
+}
+impl Priority {
+    fn put(&self, v: &mut Vec<u8>) {
+        let d = (self.dep & 0x7fff_ffff) | if self.exclusive { 0x8000_0000 } else { 0 };
+        v.extend_from_slice(&d.to_be_bytes());
+        v.push(self.weight);
+    }
+    fn get(b: &[u8]) -> Priority {
+        let d = u32::from_be_bytes([b[0], b[1], b[2], b[3]]);
+        Priority { exclusive: d & 0x8000_0000 != 0, dep: d & 0x7fff_ffff, weight: b[4] }
+    }
+}
+
+/// Why a received frame is malformed, with the RFC 9113 error code a receiver would answer.
+#[derive(Clone, Debug, PartialEq, Eq, Serialize, Deserialize)]
+pub struct FrameError {
+    pub code: u32,
+    /// connection error (true) or stream error (false)
+    pub conn: bool,
+    pub why: String,
+}
+fn ferr<T>(code: u32, conn: bool, why: &str) -> Result<T, FrameError> {
+    Err(FrameError { code, conn, why: why.to_string() })
+}
+
+#[derive(Clone, Debug, PartialEq, Eq, Serialize, Deserialize)]
+pub enum Frame {
+    /// `pad`: `Some(n)` sets PADDED with n bytes of zero padding
+    Data { stream: u32, end_stream: bool, data: Vec<u8>, pad: Option<u8> },
+    Headers { stream: u32, end_stream: bool, end_headers: bool, priority: Option<Priority>, fragment: Vec<u8>, pad: Option<u8> },
+    Priority { stream: u32, pri: Priority },
+    RstStream { stream: u32, code: u32 },
+    Settings { ack: bool, params: Vec<(u16, u32)> },
+    PushPromise { stream: u32, promised: u32, end_headers: bool, fragment: Vec<u8>, pad: Option<u8> },
+    Ping { ack: bool, data: [u8; 8] },
+    GoAway { last_stream: u32, code: u32, debug: Vec<u8> },
+    WindowUpdate { stream: u32, increment: u32 },
+    Continuation { stream: u32, end_headers: bool, fragment: Vec<u8> },
+    Unknown { ty: u8, flags: u8, stream: u32, payload: Vec<u8> },
+}
+
+/// Strip the padding of a PADDED payload: returns (content, pad length).
+fn unpad(p: &[u8], padded: bool) -> Result<(&[u8], Option<u8>), FrameError> {
+    if !padded {
+        return Ok((p, None));
+    }
+    if p.is_empty() {
+        return ferr(ecode::FRAME_SIZE_ERROR, true, "PADDED frame without pad length octet");
+    }
+    let n = p[0] as usize;
+    if n > p.len() - 1 {
+        return ferr(ecode::PROTOCOL_ERROR, true, "padding longer than the frame payload");
+    }
+    Ok((&p[1..p.len() - n], Some(p[0])))
+}
+fn pad_wrap(v: &mut Vec<u8>, pad: Option<u8>, body: impl FnOnce(&mut Vec<u8>)) {
+    if let Some(n) = pad {
+        v.push(n);
+    }
+    body(v);
+    if let Some(n) = pad {
+        v.resize(v.len() + n as usize, 0);
+    }
+}
+
+impl Frame {
+    pub fn to_raw(&self) -> RawFrame {
+        match self {
+            Frame::Data { stream, end_stream, data, pad } => {
+                let mut p = Vec::with_capacity(data.len() + 1 + pad.unwrap_or(0) as usize);
+                pad_wrap(&mut p, *pad, |p| p.extend_from_slice(data));
+                let fl = if *end_stream { flag::END_STREAM } else { 0 } | if pad.is_some() { flag::PADDED } else { 0 };
+                RawFrame::new(ftype::DATA, fl, *stream, p)
+            }
+            Frame::Headers { stream, end_stream, end_headers, priority, fragment, pad } => {
+                let mut p = Vec::with_capacity(fragment.len() + 6 + pad.unwrap_or(0) as usize);
+                pad_wrap(&mut p, *pad, |p| {
+                    if let Some(pr) = priority {
+                        pr.put(p);
+                    }
+                    p.extend_from_slice(fragment);
+                });
+                let fl = if *end_stream { flag::END_STREAM } else { 0 }
+                    | if *end_headers { flag::END_HEADERS } else { 0 }
+                    | if pad.is_some() { flag::PADDED } else { 0 }
+                    | if priority.is_some() { flag::PRIORITY } else { 0 };
+                RawFrame::new(ftype::HEADERS, fl, *stream, p)
+            }
+            Frame::Priority { stream, pri } => {
+                let mut p = Vec::new();
+                pri.put(&mut p);
+                RawFrame::new(ftype::PRIORITY, 0, *stream, p)
+            }
+            Frame::RstStream { stream, code } => RawFrame::new(ftype::RST_STREAM, 0, *stream, code.to_be_bytes().to_vec()),
+            Frame::Settings { ack, params } => {
+                let mut p = Vec::with_capacity(params.len() * 6);
+                for (id, v) in params {
+                    p.extend_from_slice(&id.to_be_bytes());
+                    p.extend_from_slice(&v.to_be_bytes());
+                }
+                RawFrame::new(ftype::SETTINGS, if *ack { flag::ACK } else { 0 }, 0, p)
+            }
+            Frame::PushPromise { stream, promised, end_headers, fragment, pad } => {
+                let mut p = Vec::new();
+                pad_wrap(&mut p, *pad, |p| {
+                    p.extend_from_slice(&(promised & 0x7fff_ffff).to_be_bytes());
+                    p.extend_from_slice(fragment);
+                });
+                let fl = if *end_headers { flag::END_HEADERS } else { 0 } | if pad.is_some() { flag::PADDED } else { 0 };
+                RawFrame::new(ftype::PUSH_PROMISE, fl, *stream, p)
+            }
+            Frame::Ping { ack, data } => RawFrame::new(ftype::PING, if *ack { flag::ACK } else { 0 }, 0, data.to_vec()),
+            Frame::GoAway { last_stream, code, debug } => {
+                let mut p = Vec::with_capacity(8 + debug.len());
+                p.extend_from_slice(&(last_stream & 0x7fff_ffff).to_be_bytes());
+                p.extend_from_slice(&code.to_be_bytes());
+                p.extend_from_slice(debug);
+                RawFrame::new(ftype::GOAWAY, 0, 0, p)
+            }
+            Frame::WindowUpdate { stream, increment } => RawFrame::new(ftype::WINDOW_UPDATE, 0, *stream, increment.to_be_bytes().to_vec()),
+            Frame::Continuation { stream, end_headers, fragment } => {
+                RawFrame::new(ftype::CONTINUATION, if *end_headers { flag::END_HEADERS } else { 0 }, *stream, fragment.clone())
+            }
+            Frame::Unknown { ty, flags, stream, payload } => RawFrame::new(*ty, *flags, *stream, payload.clone()),
+        }
+    }
+    pub fn encode(&self) -> Vec<u8> {
+        self.to_raw().encode()
+    }
+
+    /// Decode a complete frame (payload length == declared length) with the per-type size and
+    /// stream-id rules of RFC 9113 §6. Semantic rules that depend on connection state (stream
+    /// states, CONTINUATION sequencing, limits) are the peer's business, not the codec's.
+    pub fn parse(raw: &RawFrame) -> Result<Frame, FrameError> {
+        let h = &raw.head;
+        let p = &raw.payload[..];
+        let s = h.stream;
+        let need_stream = |what: &str| -> Result<(), FrameError> { if s == 0 { ferr(ecode::PROTOCOL_ERROR, true, &format!("{what} on stream 0")) } else { Ok(()) } };
+        let need_zero = |what: &str| -> Result<(), FrameError> { if s != 0 { ferr(ecode::PROTOCOL_ERROR, true, &format!("{what} on a non-zero stream")) } else { Ok(()) } };
+        match h.ty {
+            ftype::DATA => {
+                need_stream("DATA")?;
+                let (d, pad) = unpad(p, raw.has(flag::PADDED))?;
+                Ok(Frame::Data { stream: s, end_stream: raw.has(flag::END_STREAM), data: d.to_vec(), pad })
+            }
+            ftype::HEADERS => {
+                need_stream("HEADERS")?;
+                let (mut d, pad) = unpad(p, raw.has(flag::PADDED))?;
+                let mut priority = None;
+                if raw.has(flag::PRIORITY) {
+                    if d.len() < 5 {
+                        return ferr(ecode::FRAME_SIZE_ERROR, true, "HEADERS with PRIORITY flag shorter than 5 octets");
+                    }
+                    priority = Some(Priority::get(d));
+                    d = &d[5..];
+                }
+                Ok(Frame::Headers { stream: s, end_stream: raw.has(flag::END_STREAM), end_headers: raw.has(flag::END_HEADERS), priority, fragment: d.to_vec(), pad })
+            }
+            ftype::PRIORITY => {
+                need_stream("PRIORITY")?;
+                if p.len() != 5 {
+                    return ferr(ecode::FRAME_SIZE_ERROR, false, "PRIORITY length != 5");
+                }
+                Ok(Frame::Priority { stream: s, pri: Priority::get(p) })
+            }
+            ftype::RST_STREAM => {
+                need_stream("RST_STREAM")?;
+                if p.len() != 4 {
+                    return ferr(ecode::FRAME_SIZE_ERROR, true, "RST_STREAM length != 4");
+                }
+                Ok(Frame::RstStream { stream: s, code: u32::from_be_bytes([p[0], p[1], p[2], p[3]]) })
+            }
+            ftype::SETTINGS => {
+                need_zero("SETTINGS")?;
+                let ack = raw.has(flag::ACK);
+                if ack && !p.is_empty() {
+                    return ferr(ecode::FRAME_SIZE_ERROR, true, "SETTINGS ACK with payload");
+                }
+                if p.len() % 6 != 0 {
+                    return ferr(ecode::FRAME_SIZE_ERROR, true, "SETTINGS length not a multiple of 6");
+                }
+                let params = p.chunks(6).map(|c| (u16::from_be_bytes([c[0], c[1]]), u32::from_be_bytes([c[2], c[3], c[4], c[5]]))).collect();
+                Ok(Frame::Settings { ack, params })
+            }
+            ftype::PUSH_PROMISE => {
+                need_stream("PUSH_PROMISE")?;
+                let (d, pad) = unpad(p, raw.has(flag::PADDED))?;
+                if d.len() < 4 {
+                    return ferr(ecode::FRAME_SIZE_ERROR, true, "PUSH_PROMISE shorter than 4 octets");
+                }
+                let promised = u32::from_be_bytes([d[0], d[1], d[2], d[3]]) & 0x7fff_ffff;
+                Ok(Frame::PushPromise { stream: s, promised, end_headers: raw.has(flag::END_HEADERS), fragment: d[4..].to_vec(), pad })
+            }
+            ftype::PING => {
+                need_zero("PING")?;
+                if p.len() != 8 {
+                    return ferr(ecode::FRAME_SIZE_ERROR, true, "PING length != 8");
+                }
+                let mut data = [0u8; 8];
+                data.copy_from_slice(p);
+                Ok(Frame::Ping { ack: raw.has(flag::ACK), data })
+            }
+            ftype::GOAWAY => {
+                need_zero("GOAWAY")?;
+                if p.len() < 8 {
+                    return ferr(ecode::FRAME_SIZE_ERROR, true, "GOAWAY shorter than 8 octets");
+                }
+                Ok(Frame::GoAway {
+                    last_stream: u32::from_be_bytes([p[0], p[1], p[2], p[3]]) & 0x7fff_ffff,
+                    code: u32::from_be_bytes([p[4], p[5], p[6], p[7]]),
+                    debug: p[8..].to_vec(),
+                })
+            }
+            ftype::WINDOW_UPDATE => {
+                if p.len() != 4 {
+                    return ferr(ecode::FRAME_SIZE_ERROR, true, "WINDOW_UPDATE length != 4");
+                }
+                Ok(Frame::WindowUpdate { stream: s, increment: u32::from_be_bytes([p[0], p[1], p[2], p[3]]) & 0x7fff_ffff })
+            }
+            ftype::CONTINUATION => {
+                need_stream("CONTINUATION")?;
+                Ok(Frame::Continuation { stream: s, end_headers: raw.has(flag::END_HEADERS), fragment: p.to_vec() })
+            }
+            ty => Ok(Frame::Unknown { ty, flags: h.flags, stream: s, payload: p.to_vec() }),
+        }
+    }
+}
+
+// ------------------------------------------------------------------------------- frame reader
+
+/// Incremental frame reader: feed bytes as they arrive (split anywhere), pull complete frames.
+/// No limit is enforced here — the peer judges lengths against what it advertised.
+#[derive(Clone, Debug, Default)]
+pub struct FrameReader {
+    buf: Vec<u8>,
+    pos: usize,
+    /// bytes consumed so far (offset of `buf[pos]` in the inbound stream)
+    pub offset: u64,
+    /// a client connection preface is expected first (server role)
+    want_preface: bool,
+    pub preface_seen: bool,
+    pub bad_preface: bool,
+}
+impl FrameReader {
+    pub fn new(expect_client_preface: bool) -> FrameReader {
+        FrameReader { want_preface: expect_client_preface, ..Default::default() }
+    }
+    pub fn feed(&mut self, data: &[u8]) {
+        if self.pos > 0 && self.pos == self.buf.len() {
+            self.buf.clear();
+            self.pos = 0;
+        } else if self.pos > (1 << 16) {
+            self.buf.drain(..self.pos);
+            self.pos = 0;
+        }
+        self.buf.extend_from_slice(data);
+    }
+    /// bytes buffered but not yet returned as a frame
+    pub fn pending(&self) -> usize {
+        self.buf.len() - self.pos
+    }
+    /// header of the frame currently being assembled, if its 9 header octets have arrived
+    pub fn partial_header(&self) -> Option<FrameHeader> {
+        if self.want_preface || self.pending() < 9 { None } else { Some(FrameHeader::decode(&self.buf[self.pos..self.pos + 9])) }
+    }
+    pub fn next(&mut self) -> Option<RawFrame> {
+        if self.bad_preface {
+            return None;
+        }
+        if self.want_preface {
+            let have = self.pending().min(PREFACE.len());
+            if self.buf[self.pos..self.pos + have] != PREFACE[..have] {
+                self.bad_preface = true;
+                return None;
+            }
+            if have < PREFACE.len() {
+                return None;
+            }
+            self.pos += PREFACE.len();
+            self.offset += PREFACE.len() as u64;
+            self.want_preface = false;
+            self.preface_seen = true;
+        }
+        if self.pending() < 9 {
+            return None;
+        }
+        let head = FrameHeader::decode(&self.buf[self.pos..self.pos + 9]);
+        let total = 9 + head.len as usize;
+        if self.pending() < total {
+            return None;
+        }
+        let payload = self.buf[self.pos + 9..self.pos + total].to_vec();
+        let at = self.offset;
+        self.pos += total;
+        self.offset += total as u64;
+        Some(RawFrame { head, payload, at })
+    }
+}
+
+// ------------------------------------------------------------------------------- HPACK encoder
+
+/// RFC 7541 Appendix A.
+pub static STATIC_TABLE: [(&str, &str); 61] = [
+    (":authority", ""), (":method", "GET"), (":method", "POST"), (":path", "/"), (":path", "/index.html"),
+    (":scheme", "http"), (":scheme", "https"), (":status", "200"), (":status", "204"), (":status", "206"),
+    (":status", "304"), (":status", "400"), (":status", "404"), (":status", "500"), ("accept-charset", ""),
+    ("accept-encoding", "gzip, deflate"), ("accept-language", ""), ("accept-ranges", ""), ("accept", ""),
+    ("access-control-allow-origin", ""), ("age", ""), ("allow", ""), ("authorization", ""), ("cache-control", ""),
+    ("content-disposition", ""), ("content-encoding", ""), ("content-language", ""), ("content-length", ""),
+    ("content-location", ""), ("content-range", ""), ("content-type", ""), ("cookie", ""), ("date", ""), ("etag", ""),
+    ("expect", ""), ("expires", ""), ("from", ""), ("host", ""), ("if-match", ""), ("if-modified-since", ""),
+    ("if-none-match", ""), ("if-range", ""), ("if-unmodified-since", ""), ("last-modified", ""), ("link", ""),
+    ("location", ""), ("max-forwards", ""), ("proxy-authenticate", ""), ("proxy-authorization", ""), ("range", ""),
+    ("referer", ""), ("refresh", ""), ("retry-after", ""), ("server", ""), ("set-cookie", ""),
+    ("strict-transport-security", ""), ("transfer-encoding", ""), ("user-agent", ""), ("vary", ""), ("via", ""),
+    ("www-authenticate", ""),
+];
+
+/// RFC 7541 Appendix B: (code, bit length) for symbols 0..=255 and EOS (256).
+static HUFFMAN: [(u32, u8); 257] = [
+    (0x1ff8, 13), (0x7fffd8, 23), (0xfffffe2, 28), (0xfffffe3, 28), (0xfffffe4, 28), (0xfffffe5, 28), 
+    (0xfffffe6, 28), (0xfffffe7, 28), (0xfffffe8, 28), (0xffffea, 24), (0x3ffffffc, 30), (0xfffffe9, 28), 
+    (0xfffffea, 28), (0x3ffffffd, 30), (0xfffffeb, 28), (0xfffffec, 28), (0xfffffed, 28), (0xfffffee, 28), 
+    (0xfffffef, 28), (0xffffff0, 28), (0xffffff1, 28), (0xffffff2, 28), (0x3ffffffe, 30), (0xffffff3, 28), 
+    (0xffffff4, 28), (0xffffff5, 28), (0xffffff6, 28), (0xffffff7, 28), (0xffffff8, 28), (0xffffff9, 28), 
+    (0xffffffa, 28), (0xffffffb, 28), (0x14, 6), (0x3f8, 10), (0x3f9, 10), (0xffa, 12), 
+    (0x1ff9, 13), (0x15, 6), (0xf8, 8), (0x7fa, 11), (0x3fa, 10), (0x3fb, 10), 
+    (0xf9, 8), (0x7fb, 11), (0xfa, 8), (0x16, 6), (0x17, 6), (0x18, 6), 
+    (0x0, 5), (0x1, 5), (0x2, 5), (0x19, 6), (0x1a, 6), (0x1b, 6), 
+    (0x1c, 6), (0x1d, 6), (0x1e, 6), (0x1f, 6), (0x5c, 7), (0xfb, 8), 
+    (0x7ffc, 15), (0x20, 6), (0xffb, 12), (0x3fc, 10), (0x1ffa, 13), (0x21, 6), 
+    (0x5d, 7), (0x5e, 7), (0x5f, 7), (0x60, 7), (0x61, 7), (0x62, 7), 
+    (0x63, 7), (0x64, 7), (0x65, 7), (0x66, 7), (0x67, 7), (0x68, 7), 
+    (0x69, 7), (0x6a, 7), (0x6b, 7), (0x6c, 7), (0x6d, 7), (0x6e, 7), 
+    (0x6f, 7), (0x70, 7), (0x71, 7), (0x72, 7), (0xfc, 8), (0x73, 7), 
+    (0xfd, 8), (0x1ffb, 13), (0x7fff0, 19), (0x1ffc, 13), (0x3ffc, 14), (0x22, 6), 
+    (0x7ffd, 15), (0x3, 5), (0x23, 6), (0x4, 5), (0x24, 6), (0x5, 5), 
+    (0x25, 6), (0x26, 6), (0x27, 6), (0x6, 5), (0x74, 7), (0x75, 7), 
+    (0x28, 6), (0x29, 6), (0x2a, 6), (0x7, 5), (0x2b, 6), (0x76, 7), 
+    (0x2c, 6), (0x8, 5), (0x9, 5), (0x2d, 6), (0x77, 7), (0x78, 7), 
+    (0x79, 7), (0x7a, 7), (0x7b, 7), (0x7ffe, 15), (0x7fc, 11), (0x3ffd, 14), 
+    (0x1ffd, 13), (0xffffffc, 28), (0xfffe6, 20), (0x3fffd2, 22), (0xfffe7, 20), (0xfffe8, 20), 
+    (0x3fffd3, 22), (0x3fffd4, 22), (0x3fffd5, 22), (0x7fffd9, 23), (0x3fffd6, 22), (0x7fffda, 23), 
+    (0x7fffdb, 23), (0x7fffdc, 23), (0x7fffdd, 23), (0x7fffde, 23), (0xffffeb, 24), (0x7fffdf, 23), 
+    (0xffffec, 24), (0xffffed, 24), (0x3fffd7, 22), (0x7fffe0, 23), (0xffffee, 24), (0x7fffe1, 23), 
+    (0x7fffe2, 23), (0x7fffe3, 23), (0x7fffe4, 23), (0x1fffdc, 21), (0x3fffd8, 22), (0x7fffe5, 23), 
+    (0x3fffd9, 22), (0x7fffe6, 23), (0x7fffe7, 23), (0xffffef, 24), (0x3fffda, 22), (0x1fffdd, 21), 
+    (0xfffe9, 20), (0x3fffdb, 22), (0x3fffdc, 22), (0x7fffe8, 23), (0x7fffe9, 23), (0x1fffde, 21), 
+    (0x7fffea, 23), (0x3fffdd, 22), (0x3fffde, 22), (0xfffff0, 24), (0x1fffdf, 21), (0x3fffdf, 22), 
+    (0x7fffeb, 23), (0x7fffec, 23), (0x1fffe0, 21), (0x1fffe1, 21), (0x3fffe0, 22), (0x1fffe2, 21), 
+    (0x7fffed, 23), (0x3fffe1, 22), (0x7fffee, 23), (0x7fffef, 23), (0xfffea, 20), (0x3fffe2, 22), 
+    (0x3fffe3, 22), (0x3fffe4, 22), (0x7ffff0, 23), (0x3fffe5, 22), (0x3fffe6, 22), (0x7ffff1, 23), 
+    (0x3ffffe0, 26), (0x3ffffe1, 26), (0xfffeb, 20), (0x7fff1, 19), (0x3fffe7, 22), (0x7ffff2, 23), 
+    (0x3fffe8, 22), (0x1ffffec, 25), (0x3ffffe2, 26), (0x3ffffe3, 26), (0x3ffffe4, 26), (0x7ffffde, 27), 
+    (0x7ffffdf, 27), (0x3ffffe5, 26), (0xfffff1, 24), (0x1ffffed, 25), (0x7fff2, 19), (0x1fffe3, 21), 
+    (0x3ffffe6, 26), (0x7ffffe0, 27), (0x7ffffe1, 27), (0x3ffffe7, 26), (0x7ffffe2, 27), (0xfffff2, 24), 
+    (0x1fffe4, 21), (0x1fffe5, 21), (0x3ffffe8, 26), (0x3ffffe9, 26), (0xffffffd, 28), (0x7ffffe3, 27), 
+    (0x7ffffe4, 27), (0x7ffffe5, 27), (0xfffec, 20), (0xfffff3, 24), (0xfffed, 20), (0x1fffe6, 21), 
+    (0x3fffe9, 22), (0x1fffe7, 21), (0x1fffe8, 21), (0x7ffff3, 23), (0x3fffea, 22), (0x3fffeb, 22), 
+    (0x1ffffee, 25), (0x1ffffef, 25), (0xfffff4, 24), (0xfffff5, 24), (0x3ffffea, 26), (0x7ffff4, 23), 
+    (0x3ffffeb, 26), (0x7ffffe6, 27), (0x3ffffec, 26), (0x3ffffed, 26), (0x7ffffe7, 27), (0x7ffffe8, 27), 
+    (0x7ffffe9, 27), (0x7ffffea, 27), (0x7ffffeb, 27), (0xffffffe, 28), (0x7ffffec, 27), (0x7ffffed, 27), 
+    (0x7ffffee, 27), (0x7ffffef, 27), (0x7fffff0, 27), (0x3ffffee, 26), (0x3fffffff, 30),
+];
+
+/// HPACK integer (RFC 7541 §5.1): `prefix_bits` in 1..=8, `high` holds the bits above the prefix.
+pub fn encode_int(out: &mut Vec<u8>, value: u64, prefix_bits: u8, high: u8) {
+    let max = (1u64 << prefix_bits) - 1;
+    if value < max {
+        out.push(high | value as u8);
+        return;
+    }
+    out.push(high | max as u8);
+    let mut v = value - max;
+    while v >= 128 {
+        out.push((v & 0x7f) as u8 | 0x80);
+        v >>= 7;
+    }
+    out.push(v as u8);
+}
+/// Decode an HPACK integer; returns (value, octets consumed).
+pub fn decode_int(b: &[u8], prefix_bits: u8) -> Option<(u64, usize)> {
+    let max = (1u64 << prefix_bits) - 1;
+    let first = *b.first()? as u64 & max;
+    if first < max {
+        return Some((first, 1));
+    }
+    let (mut v, mut shift, mut i) = (max, 0u32, 1usize);
+    loop {
+        let o = *b.get(i)? as u64;
+        i += 1;
+        if shift > 56 {
+            return None;
+        }
+        v = v.checked_add((o & 0x7f) << shift)?;
+        shift += 7;
+        if o & 0x80 == 0 {
+            return Some((v, i));
+        }
+    }
+}
+pub fn huffman_encode(s: &[u8]) -> Vec<u8> {
+    let mut out = Vec::with_capacity(s.len());
+    let (mut acc, mut nbits) = (0u64, 0u32);
+    for b in s {
+        let (code, len) = HUFFMAN[*b as usize];
+        acc = (acc << len) | code as u64;
+        nbits += len as u32;
+        while nbits >= 8 {
+            nbits -= 8;
+            out.push((acc >> nbits) as u8);
+        }
+        acc &= (1u64 << nbits) - 1;
+    }
+    if nbits > 0 {
+        // pad with the most significant bits of EOS (all ones)
+        out.push(((acc << (8 - nbits)) as u8) | (0xffu8 >> nbits));
+    }
+    out
+}
+/// HPACK string literal (RFC 7541 §5.2).
+pub fn encode_str(out: &mut Vec<u8>, s: &[u8], huffman: bool) {
+    if huffman {
+        let h = huffman_encode(s);
+        encode_int(out, h.len() as u64, 7, 0x80);
+        out.extend_from_slice(&h);
+    } else {
+        encode_int(out, s.len() as u64, 7, 0);
+        out.extend_from_slice(s);
+    }
+}
+
+/// Header field representation (RFC 7541 §6.2).
+#[derive(Clone, Copy, Debug, PartialEq, Eq, Serialize, Deserialize)]
+pub enum Repr {
+    /// literal without indexing (0000xxxx)
+    NoIndex,
+    /// literal never indexed (0001xxxx)
+    NeverIndex,
+    /// literal with incremental indexing (01xxxxxx): enters the receiver's dynamic table
+    IncrIndex,
+}
+
+/// How this peer encodes its header blocks.
+#[derive(Clone, Debug, PartialEq, Serialize, Deserialize)]
+pub struct HpackStyle {
+    pub repr: Repr,
+    /// every n-th field uses `IncrIndex` regardless of `repr` (0 = never)
+    pub incr_every: u32,
+    /// name given as static-table index when the table has it
+    pub static_names: bool,
+    /// fully indexed representation for exact static-table matches (":method: GET", ...)
+    pub static_full: bool,
+    pub huffman: bool,
+    /// refer to dynamic-table entries this encoder inserted earlier (exact name+value matches)
+    pub dynamic_refs: bool,
+    /// dynamic table size the encoder wants (capped by what the receiver advertised); announced
+    /// with a table-size update at the start of the next block when it differs from the current
+    pub table_size: Option<u32>,
+}
+impl Default for HpackStyle {
+    fn default() -> Self {
+        HpackStyle { repr: Repr::NoIndex, incr_every: 0, static_names: true, static_full: false, huffman: false, dynamic_refs: false, table_size: None }
+    }
+}
+
+/// The harness's own HPACK encoder. It mirrors the receiver's dynamic table only as far as it
+/// inserted entries itself (literal with incremental indexing), so that size accounting, evictions
+/// and optional back-references stay exact.
+#[derive(Clone, Debug)]
+pub struct HpackEncoder {
+    pub style: HpackStyle,
+    /// newest first: index 62 is `table[0]`
+    table: VecDeque<(Vec<u8>, Vec<u8>)>,
+    table_bytes: usize,
+    /// current maximum as last signalled to (or assumed by) the receiver
+    table_max: usize,
+    /// receiver's SETTINGS_HEADER_TABLE_SIZE
+    peer_max: usize,
+    /// smallest maximum reached since the last emitted block (RFC 7541 §4.2), if a signal is owed
+    owed_min: Option<usize>,
+    fields_emitted: u64,
+}
+impl HpackEncoder {
+    pub fn new(style: HpackStyle) -> HpackEncoder {
+        let mut e = HpackEncoder {
+            style,
+            table: VecDeque::new(),
+            table_bytes: 0,
+            table_max: DEFAULT_TABLE_SIZE as usize,
+            peer_max: DEFAULT_TABLE_SIZE as usize,
+            owed_min: None,
+            fields_emitted: 0,
+        };
+        e.retarget();
+        e
+    }
+    fn evict_to(&mut self, max: usize) {
+        while self.table_bytes > max {
+            match self.table.pop_back() {
+                Some((n, v)) => self.table_bytes -= n.len() + v.len() + 32,
+                None => break,
+            }
+        }
+    }
+    fn set_max(&mut self, m: usize) {
+        if m != self.table_max {
+            self.owed_min = Some(self.owed_min.map_or(m, |x| x.min(m)));
+            self.table_max = m;
+            self.evict_to(m);
+        }
+    }
+    fn retarget(&mut self) {
+        let want = self.style.table_size.map_or(self.table_max.min(self.peer_max), |t| (t as usize).min(self.peer_max));
+        self.set_max(want);
+    }
+    /// The receiver advertised SETTINGS_HEADER_TABLE_SIZE = n (call when its SETTINGS arrive).
+    pub fn on_peer_table_size(&mut self, n: u32) {
+        self.peer_max = n as usize;
+        if self.table_max > self.peer_max {
+            self.set_max(n as usize);
+        }
+        self.retarget();
+    }
+    pub fn dynamic_entries(&self) -> usize {
+        self.table.len()
+    }
+    fn insert(&mut self, name: &[u8], value: &[u8]) {
+        let sz = name.len() + value.len() + 32;
+        if sz > self.table_max {
+            self.table.clear();
+            self.table_bytes = 0;
+            return;
+        }
+        self.evict_to(self.table_max - sz);
+        self.table.push_front((name.to_vec(), value.to_vec()));
+        self.table_bytes += sz;
+    }
+
+    /// Dynamic table size update (001xxxxx). Raw: no bookkeeping (abuse tests).
+    pub fn size_update(out: &mut Vec<u8>, size: u64) {
+        encode_int(out, size, 5, 0x20);
+    }
+    /// Indexed header field (1xxxxxxx). Raw.
+    pub fn indexed(out: &mut Vec<u8>, index: u64) {
+        encode_int(out, index, 7, 0x80);
+    }
+    /// One literal field in the given representation. Raw with respect to the dynamic table
+    /// (the caller must call `note_inserted` for IncrIndex if it cares about the mirror).
+    pub fn literal(out: &mut Vec<u8>, name: &[u8], value: &[u8], repr: Repr, name_index: Option<u64>, huffman: bool) {
+        let (bits, high) = match repr {
+            Repr::IncrIndex => (6, 0x40),
+            Repr::NoIndex => (4, 0x00),
+            Repr::NeverIndex => (4, 0x10),
+        };
+        match name_index {
+            Some(i) => encode_int(out, i, bits, high),
+            None => {
+                encode_int(out, 0, bits, high);
+                encode_str(out, name, huffman);
+            }
+        }
+        encode_str(out, value, huffman);
+    }
+
+    fn static_name(name: &[u8]) -> Option<u64> {
+        STATIC_TABLE.iter().position(|(n, _)| n.as_bytes() == name).map(|i| i as u64 + 1)
+    }
+    fn static_full(name: &[u8], value: &[u8]) -> Option<u64> {
+        STATIC_TABLE.iter().position(|(n, v)| !v.is_empty() && n.as_bytes() == name && v.as_bytes() == value).map(|i| i as u64 + 1)
+    }
+
+    /// Encode one field according to the style (and keep the table mirror exact).
+    pub fn field(&mut self, out: &mut Vec<u8>, name: &[u8], value: &[u8], repr: Repr) {
+        self.fields_emitted += 1;
+        if self.style.static_full {
+            if let Some(i) = Self::static_full(name, value) {
+                Self::indexed(out, i);
+                return;
+            }
+        }
+        if self.style.dynamic_refs {
+            if let Some(p) = self.table.iter().position(|(n, v)| n == name && v == value) {
+                Self::indexed(out, 62 + p as u64);
+                return;
+            }
+        }
+        let idx = if self.style.static_names { Self::static_name(name) } else { None };
+        Self::literal(out, name, value, repr, idx, self.style.huffman);
+        if repr == Repr::IncrIndex {
+            self.insert(name, value);
+        }
+    }
+
+    /// Owed table-size updates; must open the next header block.
+    pub fn block_prefix(&mut self, out: &mut Vec<u8>) {
+        if let Some(min) = self.owed_min.take() {
+            if min < self.table_max {
+                Self::size_update(out, min as u64);
+            }
+            Self::size_update(out, self.table_max as u64);
+        }
+    }
+
+    /// A complete header block for this header list.
+    pub fn encode_block(&mut self, headers: &[(String, String)]) -> Vec<u8> {
+        let mut out = Vec::new();
+        self.block_prefix(&mut out);
+        for (n, v) in headers {
+            let nth = self.fields_emitted + 1;
+            let repr = if self.style.incr_every > 0 && nth % self.style.incr_every as u64 == 0 { Repr::IncrIndex } else { self.style.repr };
+            self.field(&mut out, n.as_bytes(), v.as_bytes(), repr);
+        }
+        out
+    }
+}
+
+// ------------------------------------------------------------------------------- HPACK decoding
+
+#[derive(Clone, Debug, Default, PartialEq, Serialize, Deserialize)]
+pub struct DecodedBlock {
+    pub fields: Vec<(String, String)>,
+    /// table-size updates that opened the block
+    pub size_updates: Vec<u64>,
+    /// a reduction of our advertised table size was acknowledged, yet this block (the first after
+    /// it) did not start with a table-size update (RFC 7541 §4.2 MUST)
+    pub missing_size_update: bool,
+    /// a table-size update exceeded what we advertised
+    pub update_exceeds_advertised: bool,
+    /// some name or value was not valid UTF-8 (stored lossily)
+    pub non_utf8: bool,
+}
+
+/// Decoder for what sozu sends: `loona_hpack::Decoder` held to the table size this peer
+/// advertised *and sozu acknowledged*.
+pub struct HpackDecoder {
+    inner: loona_hpack::Decoder<'static>,
+    /// our advertised SETTINGS_HEADER_TABLE_SIZE in force (acknowledged)
+    pub allowed: u64,
+    /// the encoder's current maximum as we know it (last size update, or the initial 4096)
+    pub cur_max: u64,
+    must_update: bool,
+    pub blocks: u64,
+    /// after a decoding error the shared state is lost; later blocks are not decoded
+    pub broken: Option<String>,
+}
+impl HpackDecoder {
+    pub fn new() -> HpackDecoder {
+        let mut inner = loona_hpack::Decoder::new();
+        inner.set_max_allowed_table_size(DEFAULT_TABLE_SIZE as usize);
+        HpackDecoder { inner, allowed: DEFAULT_TABLE_SIZE as u64, cur_max: DEFAULT_TABLE_SIZE as u64, must_update: false, blocks: 0, broken: None }
+    }
+    /// sozu acknowledged our SETTINGS carrying HEADER_TABLE_SIZE = n.
+    pub fn on_settings_acked(&mut self, n: u32) {
+        let n = n as u64;
+        if n < self.cur_max {
+            // the encoder must shrink: entries beyond n are gone for both sides
+            self.inner.set_max_table_size(n as usize);
+            self.cur_max = n;
+            self.must_update = true;
+        }
+        self.inner.set_max_allowed_table_size(n as usize);
+        self.allowed = n;
+    }
+    pub fn decode(&mut self, block: &[u8]) -> Result<DecodedBlock, String> {
+        if let Some(e) = &self.broken {
+            return Err(format!("decoder state lost earlier: {e}"));
+        }
+        self.blocks += 1;
+        let mut out = DecodedBlock::default();
+        // leading table-size updates (001xxxxx), read independently of the decoder
+        let mut i = 0;
+        while i < block.len() && block[i] & 0xe0 == 0x20 {
+            match decode_int(&block[i..], 5) {
+                Some((v, n)) => {
+                    out.size_updates.push(v);
+                    if v > self.allowed {
+                        out.update_exceeds_advertised = true;
+                    }
+                    self.cur_max = v;
+                    i += n;
+                }
+                None => break,
+            }
+        }
+        if self.must_update {
+            self.must_update = false;
+            out.missing_size_update = out.size_updates.is_empty();
+        }
+        match self.inner.decode(block) {
+            Ok(list) => {
+                for (n, v) in list {
+                    let (ns, vs) = (String::from_utf8_lossy(&n).into_owned(), String::from_utf8_lossy(&v).into_owned());
+                    if ns.as_bytes() != &n[..] || vs.as_bytes() != &v[..] {
+                        out.non_utf8 = true;
+                    }
+                    out.fields.push((ns, vs));
+                }
+                Ok(out)
+            }
+            Err(e) => {
+                let msg = format!("{e:?}");
+                self.broken = Some(msg.clone());
+                Err(msg)
+            }
+        }
+    }
+}
+
+// ------------------------------------------------------------------------------- self-check
+
+/// Codec-only checks (no sockets): RFC test vectors and round trips through the decoder.
+pub fn codec_selftest() -> Result<(), String> {
+    // frame header
+    let h = FrameHeader { len: 0x01_02_03, ty: 9, flags: 0x25, r: true, stream: 0x7fff_fffe };
+    if FrameHeader::decode(&h.encode()) != h {
+        return Err("frame header round trip".into());
+    }
+    // integer vectors (RFC 7541 C.1)
+    let mut v = Vec::new();
+    encode_int(&mut v, 10, 5, 0);
+    encode_int(&mut v, 1337, 5, 0);
+    encode_int(&mut v, 42, 8, 0);
+    if v != [0x0a, 0x1f, 0x9a, 0x0a, 0x2a] {
+        return Err(format!("integer encoding {v:x?}"));
+    }
+    if decode_int(&[0x1f, 0x9a, 0x0a], 5) != Some((1337, 3)) {
+        return Err("integer decoding".into());
+    }
+    // Huffman vector (RFC 7541 C.4.1)
+    if huffman_encode(b"www.example.com") != [0xf1, 0xe3, 0xc2, 0xe5, 0xf2, 0x3a, 0x6b, 0xa0, 0xab, 0x90, 0xf4, 0xff] {
+        return Err("huffman vector".into());
+    }
+    // every frame type survives encode -> split feeding -> parse
+    let frames = vec![
+        Frame::Data { stream: 1, end_stream: true, data: b"hello".to_vec(), pad: Some(7) },
+        Frame::Data { stream: 3, end_stream: false, data: vec![], pad: None },
+        Frame::Headers { stream: 5, end_stream: false, end_headers: false, priority: Some(Priority { exclusive: true, dep: 3, weight: 200 }), fragment: vec![0x82, 0x86], pad: Some(0) },
+        Frame::Continuation { stream: 5, end_headers: true, fragment: vec![0x84] },
+        Frame::Priority { stream: 7, pri: Priority { exclusive: false, dep: 0, weight: 15 } },
+        Frame::RstStream { stream: 7, code: ecode::CANCEL },
+        Frame::Settings { ack: false, params: vec![(sid::INITIAL_WINDOW_SIZE, 0x7fff_ffff), (sid::MAX_FRAME_SIZE, 0xff_ffff), (0xabcd, 7)] },
+        Frame::Settings { ack: true, params: vec![] },
+        Frame::PushPromise { stream: 1, promised: 2, end_headers: true, fragment: vec![0x82], pad: Some(3) },
+        Frame::Ping { ack: true, data: [1, 2, 3, 4, 5, 6, 7, 8] },
+        Frame::GoAway { last_stream: 9, code: ecode::ENHANCE_YOUR_CALM, debug: b"calm".to_vec() },
+        Frame::WindowUpdate { stream: 0, increment: 0x7fff_ffff },
+        Frame::Unknown { ty: 0xee, flags: 0xff, stream: 11, payload: vec![9; 20] },
+    ];
+    let mut wire = Vec::new();
+    for f in &frames {
+        wire.extend_from_slice(&f.encode());
+    }
+    for split in [1usize, 2, 3, 8, 9, 10, 17, 1000] {
+        let mut r = FrameReader::new(false);
+        let mut got = Vec::new();
+        for chunk in wire.chunks(split) {
+            r.feed(chunk);
+            while let Some(raw) = r.next() {
+                got.push(Frame::parse(&raw).map_err(|e| format!("parse: {e:?}"))?);
+            }
+        }
+        if got != frames {
+            return Err(format!("frame round trip with split {split}"));
+        }
+    }
+    // malformed frames are recognised
+    let bad = [
+        RawFrame::new(ftype::DATA, flag::PADDED, 1, vec![5, 1, 2]),
+        RawFrame::new(ftype::PING, 0, 0, vec![0; 7]),
+        RawFrame::new(ftype::SETTINGS, 0, 0, vec![0; 5]),
+        RawFrame::new(ftype::SETTINGS, flag::ACK, 0, vec![0; 6]),
+        RawFrame::new(ftype::WINDOW_UPDATE, 0, 0, vec![0; 3]),
+        RawFrame::new(ftype::RST_STREAM, 0, 0, vec![0; 4]),
+        RawFrame::new(ftype::HEADERS, 0, 0, vec![]),
+        RawFrame::new(ftype::GOAWAY, 0, 1, vec![0; 8]),
+    ];
+    for b in &bad {
+        if Frame::parse(b).is_ok() {
+            return Err(format!("malformed frame accepted: {:?}", b.head));
+        }
+    }
+    // preface handling
+    let mut r = FrameReader::new(true);
+    r.feed(&PREFACE[..10]);
+    if r.next().is_some() || r.bad_preface {
+        return Err("partial preface".into());
+    }
+    r.feed(&PREFACE[10..]);
+    r.feed(&Frame::Settings { ack: false, params: vec![] }.encode());
+    if r.next().is_none() || !r.preface_seen {
+        return Err("preface + settings".into());
+    }
+    let mut r = FrameReader::new(true);
+    r.feed(b"GET / HTTP/1.1\r\n");
+    if r.next().is_some() || !r.bad_preface {
+        return Err("bad preface not flagged".into());
+    }
+    // HPACK: every style decodes to the same list through the reference decoder
+    let list: Vec<(String, String)> = vec![
+        (":method".into(), "GET".into()), (":scheme".into(), "https".into()), (":path".into(), "/a/b?c=d".into()),
+        (":authority".into(), "localhost".into()), ("x-sim-id".into(), "42".into()), ("cookie".into(), "a=b; c=d".into()),
+        ("x-long".into(), "v".repeat(300)), ("x-bin".into(), "\u{7f}~!\"#$%&'()*+,-./:;<=>?@[\\]^_`{|}".into()),
+    ];
+    for huffman in [false, true] {
+        for repr in [Repr::NoIndex, Repr::NeverIndex, Repr::IncrIndex] {
+            for variant in 0..4 {
+                let style = HpackStyle { repr, incr_every: if variant == 1 { 2 } else { 0 }, static_names: variant != 2, static_full: variant == 3, huffman, dynamic_refs: variant == 3, table_size: if variant == 3 { Some(200) } else { None } };
+                let mut enc = HpackEncoder::new(style.clone());
+                let mut dec = HpackDecoder::new();
+                for round in 0..4 {
+                    if round == 2 {
+                        // the receiver shrinks its table, then restores it
+                        enc.on_peer_table_size(64);
+                        dec.on_settings_acked(64);
+                        enc.on_peer_table_size(4096);
+                        dec.on_settings_acked(4096);
+                    }
+                    let block = enc.encode_block(&list);
+                    let d = dec.decode(&block).map_err(|e| format!("hpack decode ({style:?}, round {round}): {e}"))?;
+                    if d.fields != list {
+                        return Err(format!("hpack round trip differs ({style:?}, round {round})"));
+                    }
+                    if d.missing_size_update || d.update_exceeds_advertised {
+                        return Err(format!("hpack size-update bookkeeping ({style:?}, round {round}): {d:?}"));
+                    }
+                }
+            }
+        }
+    }
+    // a decoder that was told about a shrink notices the missing update
+    let mut dec = HpackDecoder::new();
+    dec.on_settings_acked(0);
+    let mut enc = HpackEncoder::new(HpackStyle::default());
+    let d = dec.decode(&enc.encode_block(&list)).map_err(|e| e.to_string())?;
+    if !d.missing_size_update {
+        return Err("missing size update not noticed".into());
+    }
+    // ... and an update beyond the advertised size
+    let mut dec = HpackDecoder::new();
+    let mut block = Vec::new();
+    HpackEncoder::size_update(&mut block, 8192);
+    HpackEncoder::indexed(&mut block, 2);
+    if dec.decode(&block).is_ok() {
+        return Err("oversized table-size update accepted".into());
+    }
+    Ok(())
+}
